@@ -12,6 +12,7 @@ CLAIMED = {
  "C03": ("all layouts x ALL ranges judged by IntervalOK/ValuesOK; Reader.tla (cache maps with capacity reset, lazily cached index offset, reopen) model-checked for HistoryIndependent over every bounded history, each history replayed on one real reader instance and every answer judged by TLC", "TLC model checking of histories + replay + TLC observation validation", "4 C03"),
  "C05": ("RTree.tla: construction, byte layout and DFS search checked exhaustively for n <= N blocks and fan-out b <= B (pointer exactness, containment, Search = LinearScan); every shape written by the real writer, main and zoom index decoded by the independent codec and the decoded image validated by TLC; all range queries through the real index judged by TLC", "TLC model checking + replay + TLC validation of decoded images", "4 C05"),
  "C14": ("SinkOrder.tla (region order, crash after every operation, PrefixSafe; a header-first design is rejected); the real write/seek/flush log is trace-validated by TLC at byte granularity with PrefixSafe after every operation; every crash prefix is reopened with the real readers and every operation is failed in turn, both judged by TLC", "TLC model checking + TLC trace validation of recorded sink operations + crash-prefix / fault enumeration judged by TLC", "4 C14"),
+ "C15": ("Merge.tla: the windowed merge mechanism is checked against MergeOK (per-base sum) exhaustively and by random walks; every input is replayed through merge_sections_many under a window embedding, merge_into on all overlapping pairs, fill / fill_start_to_end on all small streams; the real bigwigmerge is run over data sets x clip/adjust/threshold x output naming; all outputs judged by TLC", "TLC model checking/simulation + replay + real binary + TLC observation validation", "4 C15"),
  "C16": ("Cli.tla: configuration space and path-selection table of the converters; MC_Cli draws configurations (threads, parallel, passes, buffering, compression, block size, zooms, native/UCSC flags, own-name/multicall/mixed-case invocation, restricted output); the real CLI main is run there and back; TLC judges the parsed records with the round-trip / range-query predicates", "TLC simulation of the configuration space + real binaries + TLC observation validation", "4 C16"),
  "C17": ("Stats.tla (per-region size/covered/sum/mean0/mean/min/max as exact integers and cross-multiplied quotients, name modes, per-base values); MC_Stats enumerates data set x region lists x name mode x --min-max x -t; the real bigwigaverageoverbed (also byte-compared with -t 1), bigwigvaluesoverbed and the library function are run; TLC judges every row", "TLC enumeration + real binaries/library + TLC observation validation", "4 C17"),
  "C18": ("Slicing.tla: bisection indexer, FileView (clamping cursor) and chunker; TLC checks mechanism => IndexExact / ChunksOK on every small grouped file and enumerates every bounded read/seek sequence; each file / sequence is executed on the real index_chroms, FileView and split_file_into_chunks_by_size and judged by TLC", "TLC model checking + replay + TLC observation validation", "4 C18"),
